@@ -1,0 +1,38 @@
+//go:build verif
+
+package ogórek
+
+// Hooks for the verification machinery in /verif (build tag "verif").
+// Add-only: exported wrappers around unexported pure functions and a
+// read-only accessor for Decoder state. Nothing here changes behaviour.
+
+import (
+	"hash/maphash"
+	"math/big"
+)
+
+// VerifEqual exposes equal (Python-like equality used by Dict).
+func VerifEqual(a, b any) bool { return equal(a, b) }
+
+// VerifHash exposes hash (panics with "unhashable type: ..." like hash does).
+func VerifHash(seed maphash.Seed, x any) uint64 { return hash(seed, x) }
+
+// VerifPyquote exposes pyquote.
+func VerifPyquote(s string) string { return pyquote(s) }
+
+// VerifPydecodeStringEscape exposes pydecodeStringEscape.
+func VerifPydecodeStringEscape(s string) (string, error) { return pydecodeStringEscape(s) }
+
+// VerifPyencodeRawUnicodeEscape exposes pyencodeRawUnicodeEscape.
+func VerifPyencodeRawUnicodeEscape(s string) (string, error) { return pyencodeRawUnicodeEscape(s) }
+
+// VerifPydecodeRawUnicodeEscape exposes pydecodeRawUnicodeEscape.
+func VerifPydecodeRawUnicodeEscape(s string) (string, error) { return pydecodeRawUnicodeEscape(s) }
+
+// VerifDecodeLong exposes decodeLong.
+func VerifDecodeLong(data string) (*big.Int, error) { return decodeLong(data) }
+
+// VerifState reports stack depth, memo size and protocol of the decoder.
+func (d *Decoder) VerifState() (stack, memo, protocol int) {
+	return len(d.stack), len(d.memo), d.protocol
+}
